@@ -99,6 +99,17 @@ def _faithful(w, c=None, top=True) -> bool:
     if isinstance(w, dict):
         if "__error__" in w or "__class__" in w:
             return False
+        if top and c is not None:
+            # an argument the model leaves at None although its specification is an object built by a maker function
+            # (an opaque tree, an evaluator ...) cannot be handed to the real function as None: the replay would judge
+            # f(None), not the counter-model
+            from pyvc.contracts import Raw
+            specs = {}
+            for case in ([c.params] if getattr(c, "params", None) else []) + list(getattr(c, "cases", None) or []):
+                specs.update(case or {})
+            for k, v in w.items():
+                if v is None and isinstance(specs.get(k), Raw) and not (k == "self" and c.call_native is not None):
+                    return False
         return all(_faithful(v, c, False) for k, v in w.items()
                    if not (top and k == "self" and c is not None and c.call_native is not None))
     if isinstance(w, (list, tuple)):
